@@ -190,7 +190,7 @@ fn serve_strategy() -> BoxedStrategy<Case> {
         max_specs: 4,
         multipart_bias: true,
     };
-    reqgen::case_strategy(reqgen::len_strategy(), p)
+    reqgen::stable_case_strategy(reqgen::len_strategy(), p)
         .prop_map(|(ent, req)| Case { ent, req })
         .boxed()
 }
